@@ -193,14 +193,18 @@ def nsNewAsset (fac : Factory) (s : H) (cls name : PyJ) : Except LErr (H × ARef
     | _ => .error .validation
   | _ => .error .typeError
 
-/-- `setattr(asset, defense_name, value)` with a float: `ValidationError` unless the class has that defense and
-the value passes the range check; an assignment replaces an earlier one of the same defense -/
+/-- `setattr(asset, defense_name, value)` with a float: `ValidationError` when the class has that defense and the
+value fails the range check; an assignment replaces an earlier one of the same defense.  For a name that is NOT a
+defense of the class python_jsonschema_objects accepts the assignment silently (an additional property, checked
+on the real library): such an attribute has no place in `PyAsset` — **not modelled** (the hand-written model
+answers `validation` there, which is not what the library does). -/
 def pjsSetDefense (fac : Factory) (s : H) (a : ARef) (name : PyJ) (v : String) : Except LErr H :=
   match name with
   | .str n =>
-    if (MS.defensesOf fac.L (s.a a).type).any (·.1 = n) && fac.floatOk v then
-      .ok (s.setA a { s.a a with defenses := PyM.dictSet (s.a a).defenses n v })
-    else .error .validation
+    if (MS.defensesOf fac.L (s.a a).type).any (·.1 = n) then
+      if fac.floatOk v then .ok (s.setA a { s.a a with defenses := PyM.dictSet (s.a a).defenses n v })
+      else .error .validation
+    else .error .unmodelled
   | _ => .error .typeError
 
 /-- `getattr(ns, cls)()`: `AttributeError` when there is no such association class; a new association object
